@@ -278,7 +278,10 @@ impl Out {
     }
     /// child side: print the result line
     pub fn emit(&self) {
-        let s = serde_json::to_string(&self.to_json()).unwrap();
+        let mut j = self.to_json();
+        // which kind of build produced this result (checked by `dbg_build_layer`)
+        j["sets"]["built_with_debug_assertions"] = json!([if cfg!(debug_assertions) { "true" } else { "false" }]);
+        let s = serde_json::to_string(&j).unwrap();
         let out = std::io::stdout();
         let mut l = out.lock();
         let _ = writeln!(l, "RESULT {s}");
@@ -781,6 +784,35 @@ thread_local! {
 }
 pub fn set_panic_context(s: String) {
     PANIC_CTX.with(|c| *c.borrow_mut() = s);
+}
+
+/// Thorough-tier layer: the given child workloads once more on a build of the same binary with
+/// the repository's debug assertions live (`VERIF_<ID>_DBG_BIN`, built by /verif/check with the
+/// `dbgassert` profile).  The same oracles run inside; a debug assertion of the repository that
+/// fails shows as a panic / process death and is judged like one.  No-op when the variable is unset.
+pub fn dbg_build_layer(id: &str, args: &Args, specs: Vec<ChildSpec>, out: &mut Out, extra: &mut Map<String, Value>) {
+    let Ok(p) = std::env::var(format!("VERIF_{id}_DBG_BIN")) else { return };
+    if p.is_empty() {
+        return;
+    }
+    let mut dbg = Out::new();
+    for spec in specs {
+        let mut spec = spec.arg("dbg", 1);
+        spec.exe = Some(std::path::PathBuf::from(&p));
+        let ends = run_children(args, &spec, &mut dbg);
+        classify_ends(&ends, &mut dbg, true);
+    }
+    if !dbg.sets.get("built_with_debug_assertions").map(|s| s.contains("true") && s.len() == 1).unwrap_or(false) {
+        out.harness_errors.push(format!("VERIF_{id}_DBG_BIN={p} is not a debug-assertions build (or produced nothing)"));
+    }
+    extra.insert("debug_assertion_build".into(), json!({"binary": p, "evaluations": dbg.evals, "distinct": dbg.distinct.len(), "counters": dbg.counters}));
+    let v = dbg.to_json();
+    let evals = out.evals + dbg.evals;
+    out.merge_json(&json!({"viols": v["viols"], "known": v["known"], "inconclusive": v["inconclusive"], "harness_errors": v["harness_errors"]}));
+    out.evals = evals;
+    for h in dbg.distinct {
+        out.distinct.insert(h ^ 0x0dbd_0dbd);
+    }
 }
 
 /// Run `f` catching panics; returns Err(message).
